@@ -416,20 +416,28 @@ def fragment(seed, index, **cfgkw):
 DIRECT_FIELDS = [("fee", "txn Fee"), ("size", "global GroupSize"), ("index", "txn GroupIndex"), ("gfee", "gtxn 0 Fee")]
 
 def direct(seed, index):
-    """program `index` of the systematic family: field x operator x operand order x constant x consumption form"""
+    """program `index` of the systematic family: field x operator x operand order x constant x consumption form
+    x (nothing | an operand of a surrounding && / || computed in an EARLIER block | absolute read through `int 0; gtxns`)"""
     r = random.Random(f"direct/{seed}/{index}")
     kind, read = DIRECT_FIELDS[index % len(DIRECT_FIELDS)]
     op = OPS[(index // 4) % 6]
     const_first = (index // 24) % 2 == 1
     form = (index // 48) % 6
+    variant = (index // 288) % 4
     if kind in ("fee", "gfee"): c = r.choice([0, 1000, 271999, 272000, 272001, 500000])
     elif kind == "size": c = r.choice([1, 2, 3, 15, 16, 17])
     else: c = r.choice([0, 1, 2, 14, 15, 16])
     lit = r.choice([f"int {c}", f"pushint {c}"])
     cmp_ = ([lit, read] if const_first else [read, lit]) + [op]
     pre = ["#pragma version 8"]
-    if kind != "fee" or r.random() < 0.5:
+    if variant == 3:
+        pre += ["int 0", "gtxns Amount", "pop"]   # absolute index 0 taken from the stack
+    elif kind != "fee" or r.random() < 0.5:
         pre += ["gtxn 1 Amount", "pop"]        # an absolute-index read, so that group-size-check applies
+    if variant in (1, 2):
+        # one operand of the connective is left on the stack by the previous block
+        conn = "&&" if variant == 1 else "||"
+        cmp_ = ["txn NumAppArgs", "mid:"] + cmp_ + [conn]
     if form == 0: body = cmp_ + ["assert", "int 1", "return"]
     elif form == 1: body = cmp_ + ["return"]
     elif form == 2: body = cmp_ + ["bz bad", "int 1", "return", "bad:", "err"]
@@ -439,7 +447,7 @@ def direct(seed, index):
     tags = ["constLeft"] if const_first and op in ("<", "<=", ">", ">=") else []
     return "\n".join(pre + body) + "\n", tags
 
-N_DIRECT = 4 * 6 * 2 * 6
+N_DIRECT = 4 * 6 * 2 * 6 * 4
 
 
 # ---------------------------------------------------------------------------------------------
@@ -536,3 +544,39 @@ def straightline(seed, index):
             lines.append(r.choice(["==", "!=", "<", "<=", "&&", "||", "!", "+", "-"]))
     lines += [r.choice(["assert", "return", "pop"])]
     return "\n".join(lines) + "\n"
+
+
+# ---------------------------------------------------------------------------------------------
+# small call / loop skeletons (C02, C05, C12): loops x calls inside loops x callee shapes x code after the loop
+
+def callfam(seed, index):
+    r = random.Random(f"callfam/{seed}/{index}")
+    loop = index % 3              # 0 none, 1 while, 2 do-while
+    callee = (index // 3) % 4     # 0 plain retsub, 1 early return + retsub (approves itself), 2 nested call, 3 called twice
+    after = (index // 12) % 2     # code after the loop calls again
+    check = (index // 24) % 3     # where a governed check sits: 0 main, 1 callee, 2 after the call
+    chk = r.choice([["txn RekeyTo", "global ZeroAddress", "==", "assert"], ["txn Fee", "int 1000", "<=", "assert"],
+                    ["txn OnCompletion", "int UpdateApplication", "!=", "assert"], ["global GroupSize", "int 2", "==", "assert"]])
+    call = ["callsub f"] + (chk if check == 2 else [])
+    body = call + (["callsub f"] if callee == 3 else [])
+    main = ["#pragma version 8", "gtxn 1 Amount", "pop"] + (chk if check == 0 else [])
+    if loop == 1:
+        main += ["int 0", "store 0", "top:", "load 0", "int 2", "<", "bz done"] + body + ["load 0", "int 1", "+", "store 0", "b top", "done:"]
+    elif loop == 2:
+        main += ["int 0", "store 0", "top:"] + body + ["load 0", "int 1", "+", "dup", "store 0", "int 2", "<", "bnz top"]
+    else:
+        main += body
+    if after:
+        main += ["callsub f", "int 9", "pop"]
+    main += ["int 1", "return"]
+    f = ["f:"] + (chk if check == 1 else [])
+    if callee == 1:
+        f += ["txn NumAppArgs", "int 7", "==", "bz fcont", "int 1", "return", "fcont:"]
+    if callee == 2:
+        f += ["callsub g", "int 3", "pop"]
+    f += ["retsub"]
+    g = ["g:", "int 4", "pop", "retsub"] if callee == 2 else []
+    tags = ["innerApprove"] if callee == 1 else []
+    return "\n".join(main + f + g) + "\n", tags
+
+N_CALLFAM = 3 * 4 * 2 * 3
